@@ -116,9 +116,43 @@ func (e *cmpEnv) intOf(x ast.Expr) (int, bool) {
 			return -v, ok
 		}
 	case *ast.CallExpr:
+		// the library three-way comparisons of one field pair: cmp.Compare(i.F, j.F), strings.Compare, bytes.Compare
+		if f := callee(e.info, y); f != nil && f.Pkg() != nil && f.Name() == "Compare" && len(y.Args) == 2 {
+			switch f.Pkg().Path() {
+			case "cmp", "strings", "bytes":
+				if r, ok := e.pairRel(y.Args[0], y.Args[1]); ok {
+					return int(r), true
+				}
+			}
+		}
 		return e.call(y)
 	}
 	return 0, false
+}
+
+// pairRel: the order of x and y when they are the same field of the two matches.
+func (e *cmpEnv) pairRel(x, y ast.Expr) (rel, bool) {
+	ra, ka, xa, ok1 := e.side(x)
+	rb, kb, xb, ok2 := e.side(y)
+	if !(ok1 && ok2 && ka == kb && xa == xb && ra != rb && (ra == e.i || ra == e.j) && (rb == e.i || rb == e.j)) {
+		return 0, false
+	}
+	var r rel
+	switch ka {
+	case "Score":
+		r = e.score
+	case "HitNumber":
+		r = e.hit
+	case "Sort":
+		if xa >= e.nkeys {
+			e.fail("sort key index %d out of range", xa)
+		}
+		r = e.keys[xa]
+	}
+	if ra == e.j {
+		r = -r
+	}
+	return r, true
 }
 
 // call evaluates a helper of the same package (a three-way compare extracted
